@@ -125,6 +125,15 @@ CHECKS = {
           'every unchecked std::get<Typification> in the checker reads a typification (a logical global used as an operand made 11 rules throw: fixed); structure accessors are guarded; evaluator refusals log a specific error.',
   'note': 'NOT decided: that each structure the evaluator dereferences (tuple arity, set-ness) is implied by the typing rule that accepted the expression, nor that the value has the structure of the reported type - these need the typing rules as mathematics.',
  },
+ 'C04': {
+  'technique': 'finite-state evaluation of RSParser::Parse / yylex / ParserState::OnError extracted from the AST; loud-refusal fixpoint over parser actions, parser helpers and auditors; '
+               'tree-grammar child-access bounds for all visitors; guard-dominance audit of every throwing accessor reachable from the analysis entry points (with call-graph reachability, size-interval facts, '
+               'callee postcondition summaries, class-invariant and contract-accessor checks); jam-freedom of both scanners on the extracted DFA; who-may-share-the-reporter rule for nested analysers',
+  'text': 'Decides: Parse succeeds iff the grammar accepted and no critical error was counted, and never fails silently; every refusal of parser, helpers and auditors logs an error; no visitor leaves its node; '
+          'every std::get / optional::value / at / stoi / substr in the analysis code is guarded, caught, or covered by a named invariant; no byte sequence can jam a scanner and unknown bytes are reported; '
+          'errors of a nested analysis of another text never enter the input\'s log.',
+  'note': 'NOT decided: stack depth on adversarial nesting (recursive descent of visitors), termination bounds of the evaluator, behaviour of the JSON library; 14 throwing sites rest on invariants confirmed by reading and listed one by one in rules/C04.py.',
+ },
  'C03': {
   'technique': 'whole-program "loud refusal" fixpoint over the auditors\' CFGs (every refusing return is dominated by an error report or is the propagation of a loud callee), '
                'error-position provenance rule, scope pairing path rule, finite-domain evaluation of the value/property rules, of the bound-variable scope functions and of the type algebra '
